@@ -155,7 +155,7 @@ def run_chunk(chunk, ctx):
         if status == "gap":
             col.gap(str(res)[:100])
         elif status == "timeout":
-            col.gap("path timeout")
+            col.count("slow_paths_not_analysed")
         elif status == "ok":
             if res.get("skipped"):
                 col.count("skipped:" + res["skipped"])
@@ -249,12 +249,12 @@ def run_pipeline_chunk(chunk, ctx):
         if status == "gap":
             col.gap(str(res)[:100])
         elif status == "timeout":
-            col.gap("path timeout")
+            col.count("slow_paths_not_analysed")
         elif status == "ok" and not cur.get("viol") and col.want_witness():
             m = ex.model()
             a, b = cur["pair"]
             col.add_witness(dict(part="pipeline", name=prog.name, a=SymStr(a).concretize(m), b=SymStr(b).concretize(m)), dict(same=True))
-    ex.explore(body, on_path=on_path, max_time=max(1.0, min(ctx.get("chunk_time", 60), ctx["deadline"] - time.time())), path_alarm=20.0)
+    ex.explore(body, on_path=on_path, max_time=max(1.0, min(ctx.get("chunk_time", 60), ctx["deadline"] - time.time())), path_alarm=20.0, max_paths=ctx.get("max_paths"))
     res = col.finish()
     res["stats"] = ex.stats()
     return res
